@@ -51,10 +51,12 @@ json.dump(out, open(sys.argv[1], "w"))
 # a product location on one of the four filesystems
 # ----------------------------------------------------------------------------------------------------------------
 class Place:
-    def __init__(self, fsname, tag):
+    def __init__(self, fsname, tag, base=None, sub=None):
         self.fsname = fsname
         if fsname in ("local", "file"):
-            self.dir = os.path.join(checklib.fresh_dir("loc_"), "product")
+            # the locations of one session are SIBLINGS that differ only in letter case / Unicode normal form (ALOS2/Kyushu next to
+            # alos2/kyushu: distinct directories on a case-sensitive disk); the product directories themselves have the same name
+            self.dir = os.path.join(base or checklib.fresh_dir("loc_"), sub or "", "product")
             os.makedirs(self.dir)
             self.url = ("file://" if fsname == "file" else "") + self.dir
         elif fsname == "memory":
@@ -110,7 +112,8 @@ class Place:
 
     def listing(self):
         if self.fsname in ("local", "file"):
-            out = {n: hashlib.sha256(open(os.path.join(self.dir, n), "rb").read()).hexdigest()[:16] for n in sorted(os.listdir(self.dir))}
+            out = {n: hashlib.sha256(open(os.path.join(self.dir, n), "rb").read()).hexdigest()[:16] + f"@{os.stat(os.path.join(self.dir, n)).st_mtime_ns}"
+                   for n in sorted(os.listdir(self.dir))}
             out["."] = str(os.stat(self.dir).st_mtime_ns)   # entries created and removed again inside the directory leave this trace
             return out
         if self.fsname == "memory":
@@ -140,7 +143,7 @@ def snapshot(d):
         for f in files:
             p = os.path.join(root, f)
             with open(p, "rb") as fh:
-                out[os.path.relpath(p, d)] = hashlib.sha256(fh.read()).hexdigest()[:16]
+                out[os.path.relpath(p, d)] = hashlib.sha256(fh.read()).hexdigest()[:16] + f"@{os.stat(p).st_mtime_ns}"   # (a rewrite with the same content is still a write)
     return out
 
 
@@ -250,7 +253,11 @@ class Session:
         self.cache_root = os.path.join(self.cache_home, "xarray-ceos-alos2")
         self.unbreak()
         shutil.rmtree(self.cache_root, ignore_errors=True)
-        self.place = {l: Place(fsname, f"{seed}_{l}") for l in locs}
+        base = checklib.fresh_dir("ses_") if fsname in ("local", "file") else None
+        # (ASCII only: ceos-alos2-create-cache cannot be given images below directories whose names need URL quoting -- blanks, '%', '#',
+        # non-ASCII letters: it goes through Path.as_uri() and the quoted path does not exist; observed, outside the properties, see DESIGN 6)
+        subs = ["ALOS2/Kyushu", "alos2/kyushu", "ALOS2/KYUSHU", "other"]
+        self.place = {l: Place(fsname, f"{seed}_{l}", base=base, sub=subs[i % len(subs)]) for i, l in enumerate(locs)}
         self.twin = {l: os.path.join(checklib.fresh_dir("twin_"), "product") for l in locs}  # local mirror (CLI on non-local fs)
         self.cur = {}
         self.storage_options = storage_options
@@ -369,13 +376,23 @@ class Session:
             if self.storage_options and style != 2:
                 opts["storage_options"] = {} if self.fsname != "local" else {"auto_mkdir": False}
             keep = copy.deepcopy(opts)
+            # how the caller spells the location: as it is, or -- on a local disk -- relative to the working directory it happens to be
+            # in (the product directories of all locations have the same name: only the working directory tells them apart)
+            target, cwd0 = self.place[l].url, None
+            if self.fsname == "local" and self.rng.random() < 0.4:
+                cwd0 = os.getcwd()
+                os.chdir(os.path.dirname(self.place[l].dir))
+                target = self.rng.choice(["product", "./product", "product/"])
             try:
-                tree = ceos_alos2.open_alos2(self.place[l].url, backend_options=opts)
+                tree = ceos_alos2.open_alos2(target, backend_options=opts)
                 outcome = "tree"
             except BaseException as e:  # noqa: B902 -- the outcome is data
                 tree = None
                 outcome = "oserror" if isinstance(e, OSError) else "error"
                 obs["error"] = f"{type(e).__name__}: {str(e)[:200]}"
+            finally:
+                if cwd0 is not None:
+                    os.chdir(cwd0)
             obs["outcome"] = outcome
             evs = tracefs.take_log()
             want = last["outcome"]
@@ -638,6 +655,15 @@ class Session:
             elif cdelta:
                 find("cache_unasked", f"{op} changed the user cache directory: {cdelta}")
         obs["cells"] = self.cells()
+        # time passes: index files (in the user cache directory and next to the images) become more than a year old now and then
+        if op in ("open", "cli") and self.fsname in ("local", "file") and self.rng.random() < 0.35:
+            import glob
+
+            old = 1262304000 + self.rng.randrange(10**6)   # some day in 2010
+            for f in glob.glob(os.path.join(self.cache_home, "**", "*.index"), recursive=True) + [
+                    os.path.join(pl.dir, n) for pl in self.place.values() for n in os.listdir(pl.dir) if n.endswith(".index")]:
+                if os.path.isfile(f):
+                    os.utime(f, (old, old))
         return obs
 
     def damage_text(self, l):
